@@ -389,11 +389,8 @@ func ruleEarlyGuards(c *Ctx, r *R) {
 		if !ok {
 			return false
 		}
-		cond := iff.Cond
-		want := idx == 0
-		if u, ok := cond.(*ssa.UnOp); ok && u.Op == token.NOT {
-			cond, want = u.X, !want
-		}
+		cond, negC := normBool(iff.Cond)
+		want := (idx == 0) != negC
 		a := loadAddr(cond)
 		if a == nil {
 			return false
@@ -410,11 +407,8 @@ func ruleEarlyGuards(c *Ctx, r *R) {
 		if !ok {
 			return false
 		}
-		cond := iff.Cond
-		want := idx == 0
-		if u, ok := cond.(*ssa.UnOp); ok && u.Op == token.NOT {
-			cond, want = u.X, !want
-		}
+		cond, negC := normBool(iff.Cond)
+		want := (idx == 0) != negC
 		call, ok := cond.(*ssa.Call)
 		return ok && call.Call.StaticCallee() != nil && call.Call.StaticCallee().Name() == name && want
 	}
